@@ -164,3 +164,15 @@ def c06_loop_with_function(x):
     from jax import lax
 
     return lax.fori_loop(0, 3, lambda i, v: c06_fn_in_loop(v) + v, x)
+
+
+c13_jit_helper = None  # replaced by a fresh jax.jit callable before every use
+
+
+@onnx_function
+def c13_fn_with_jit(v):
+    return c13_jit_helper(v) * 0.5 + 1.0
+
+
+def c13_outer_with_jit_in_body(x):
+    return c13_fn_with_jit(x) - x
